@@ -13,7 +13,9 @@ EXPLANATION = (
     "y_v' = product of the children, start at 0) is integrated for one step of symbolic size h by the real integrator __call__ "
     "(compute_step / RungeKuttaIntegrator.step / algebraic_system / ExplicitSymplecticIntegrator.step / adaptive_richardson) from the "
     "real class attributes; the root component then equals Phi(tau)*h^|tau| exactly, the exact flow gives h^|tau|/gamma(tau), and "
-    "z3 decides for all h that |dY_root - h^n/gamma| <= 2^-23 * h^n/gamma (the slack covers the rounding of the 16-digit tables). "
+    "z3 decides for all h that |dY_root - h^n/gamma| <= 2^-23 * h^n/gamma (the slack covers the rounding of the 16-digit tables) or, for the tiny "
+    "high-order weights that are sums of O(1) terms with cancellation, <= 2^-30 * Phi_abs(tau) h^n where Phi_abs is the same elementary weight computed by the "
+    "same real code from the element-wise absolute coefficients (backward-error scale; a third-digit coefficient error is >= 1e-5 * Phi_abs). "
     "'order >= p' <=> all trees of order <= p pass (Butcher).  Embedded rows: error estimate on y'=1 is 0 (sum b_hat = 1).  "
     "c_i = sum_j a_ij is observed through the non-autonomous systems y' = t^k.  Splitting schemes: bicoloured trees with alternating "
     "colours (separable systems) through the real drift/kick loop with the default mask.  Richardson wrappers (2..5 levels): all trees "
@@ -36,7 +38,8 @@ BOUNDS = {
 OUTSIDE = ["passage from local order to 'halving the step divides the global error by 2^p' (classical theorem)", "float rounding of the step itself",
            "coefficient errors below 2^-23 relative in an elementary weight"]
 
-SLACK = 2.0 ** -23
+SLACK = 2.0 ** -23          # relative slack on Phi*gamma = 1
+SLACK_ABS = 2.0 ** -30      # backward-error slack: |Phi - 1/gamma| <= SLACK_ABS * Phi_abs (Phi_abs = elementary weight of the |coefficients|)
 
 
 def _explicit():
@@ -156,11 +159,16 @@ def _mk(c, cls, dim):
     return cls((dim,), dtype=dt, rtol=1e-6, atol=1e-6)
 
 
-def _step(c, cls, rhs, dim, t, h, sweeps):
-    """one real __call__ from y = 0; returns dState (or raises)"""
+def _step(c, cls, rhs, dim, t, h, sweeps, absolute=False):
+    """one real __call__ from y = 0; returns dState (or raises).  absolute=True: the instance's coefficient arrays are replaced by
+    their element-wise absolute values (the backward-error scale Phi_abs of the elementary weight, computed by the same real code)"""
     import desolver.utilities.optimizer as opt
     import desolver.integrators.integrator_types as it
     integ = _mk(c, cls, dim)
+    if absolute:
+        integ.tableau_intermediate = abs(integ.tableau_intermediate)
+        if hasattr(integ, "tableau_final"):
+            integ.tableau_final = abs(integ.tableau_final)
     integ.update_timestep = ctrl_stub(c, integ, fixed=1.0)
     y0 = c.array([0] * dim) if c.symbolic else np.zeros(dim)
     with patched(opt, "nonlinear_roots", picard_root_stub(c, sweeps)), patched(it, "broyden_update_jac", lambda B, dx, df, Binv=None: B):
@@ -168,16 +176,34 @@ def _step(c, cls, rhs, dim, t, h, sweeps):
     return integ, dY
 
 
-def _within(c, got, h, n, g):
-    """|got - h^n/g| <= SLACK * |h^n/g|   (polynomial inequality; no abs atoms)"""
+def _within(c, got, h, n, g, got_abs=None):
+    """|got - h^n/g| <= SLACK * |h^n/g|  or, when the backward-error scale is supplied, <= SLACK_ABS * |got_abs|
+    (polynomial inequalities; no abs atoms)"""
     hn = 1
     for _ in range(n):
         hn = hn * h
     ex = hn * (1.0 / g) if not c.symbolic else hn * _frac(1, g)
     d = got - ex
     if c.symbolic:
-        return d * d <= (SLACK * SLACK) * (ex * ex)
-    return bool(abs(d) <= SLACK * abs(ex) + 1e-300)
+        ok = d * d <= (SLACK * SLACK) * (ex * ex)
+        if got_abs is not None:
+            ok = ok | (d * d <= (SLACK_ABS * SLACK_ABS) * (got_abs * got_abs))
+        return ok
+    ok = bool(abs(d) <= SLACK * abs(ex) + 1e-300)
+    if got_abs is not None:
+        ok = ok or bool(abs(d) <= SLACK_ABS * abs(got_abs))
+    return ok
+
+
+def _relative_defect(c, got, h, n, g):
+    """|Phi*gamma - 1| when got is the monomial Phi*h^n (symbolic mode), else None"""
+    if not c.symbolic:
+        return None
+    p = getattr(got, "p", None)
+    if p is None or len(p) != 1:
+        return None
+    (m, k), = p.items()
+    return abs(float(k) * g - 1.0)
 
 
 def _frac(a, b):
@@ -242,12 +268,19 @@ def scenario(c, inst):
                 continue
             integ, dY = r
             c.case()
+            got_abs = None
+            rd = _relative_defect(c, dY[root], h, n, T.gamma(tr))
+            if (rd is None and n >= 8) or (rd is not None and rd > SLACK):
+                # high-order weights are tiny sums of O(1) terms with cancellation: judge the defect on the backward-error scale Phi_abs
+                st2, r2 = run(_step, c, cls, rhs, dim, t, h, n + 2, True)
+                if st2 == "ok":
+                    got_abs = r2[1][root]
             regions = None
             if kind == "split" and inst["cls"] in ("ABAs5o6HSolver", "BABs9o7HSolver") and n >= 5:
                 # KNOWN finding: declared order 6/7 holds only for near-harmonic problems; generic order is 4
                 regions = {"c01.splitting_declared_order": True}
-            c.check(name, _within(c, dY[root], h, n, T.gamma(tr)),
-                    info=dict(cls=inst["cls"], tree=T.tree_str(tr), order=n, colour=col), regions=regions)
+            c.check(name, _within(c, dY[root], h, n, T.gamma(tr), got_abs),
+                    info=dict(cls=inst["cls"], tree=T.tree_str(tr), order=n, colour=col, backward_error_scale=got_abs is not None), regions=regions)
         return
     if kind == "aux":
         cls = _cls(inst["cls"])
